@@ -70,6 +70,22 @@ def ensure_variant(variant):
     return libpath(variant)
 
 
+def ensure_tool(variant="plain"):
+    """the gmssl command-line tool of a variant (CMake target gmssl-bin), built from /repo's working tree next to the library"""
+    ensure_variant(variant)
+    bdir = os.path.join(BUILD, variant)
+    log = os.path.join(bdir, "verif_build.log")
+    lock = open(os.path.join(bdir, ".lock"), "w")
+    fcntl.flock(lock, fcntl.LOCK_EX)
+    try:
+        if _run(["cmake", "--build", bdir, "--target", "gmssl-bin", "-j", str(os.cpu_count() or 4)], log) != 0:
+            raise RuntimeError("tool build failed for %s, see %s" % (variant, log))
+    finally:
+        fcntl.flock(lock, fcntl.LOCK_UN)
+        lock.close()
+    return os.path.join(bdir, "bin", "gmssl")
+
+
 def defines(variant="asan"):
     """The -D flags cmake gave the library objects (struct layouts depend on them)."""
     import re
